@@ -243,10 +243,15 @@ def run(case):
         elif k == "split":
             f = o["field"]
             before = m.df.copy()
-            ok, parts = call(out, "split_by_feature", lambda: m.split_by_feature(f))
+            dv = distinct(rows, f)
+            to_files = step % 2 == 0 and all(float(v) == int(v) for v in dv)  # the part files are named after the integer value
+            if to_files:
+                out.label("split:write_out")
+                ok, parts = call(out, "split_by_feature", lambda: m.split_by_feature(f, write_out=True, output_prefix="part_"))
+            else:
+                ok, parts = call(out, "split_by_feature", lambda: m.split_by_feature(f))
             if not ok:
                 return out
-            dv = distinct(rows, f)
             if not out.check(len(parts) == len(dv), "split:number_of_parts", f"step {step}: {len(parts)} vs {len(dv)}"):
                 return out
             for v, p in zip(dv, parts):
@@ -254,6 +259,11 @@ def run(case):
                 if not same_rows(out, p.df, exp, "split", step):
                     return out
             out.check(m.df.equals(before), "split:modified_source_list", f"step {step}")
+            if to_files:
+                for v, p in zip(dv, parts):
+                    bad = oracle.em_motl_mismatch(f"part_{int(v)}.em", p.df)
+                    if not out.check(bad is None, f"split:part_file_{bad}", f"step {step}: part_{int(v)}.em"):
+                        return out
             for v, p in list(zip(dv, parts))[:2]:
                 push(Motl(p.df.copy()), [list(r_) for r_ in rows if norm(r_[IX[f]]) == v])
         elif k == "intersection":
